@@ -442,8 +442,8 @@ func (w *World) workloadActions() []Action {
 	b := w.cl.buckets[cfg.Bucket]
 	for vb := 0; vb < cfg.NVb; vb++ {
 		vb := vb
-		if w.extWrites[vb] >= cfg.MaxItems {
-			continue
+		if w.extWrites[vb] >= cfg.MaxItems || b.vbs[vb].high > 1<<64-64 {
+			continue // (a vBucket whose history is already at the top of the seqno range takes no more writes)
 		}
 		acts = append(acts, Action{ID: fmt.Sprintf("write|vb%d", vb), W: cfg.W.ExtWrite, Do: func() {
 			w.extWrites[vb]++
